@@ -1360,9 +1360,12 @@ pub fn main_for(property: &str, which: &'static str) {
         // (the C02 oracle costs about three times the C01 oracle per case)
         let n = if search { 400 } else if which == "oracle.c01" { args.budget(60, 500) } else { args.budget(40, 300) };
         let mut batch = vec![];
-        for _ in 0..n {
+        for i in 0..n {
             let c = gen_case_with(&mut rng, r.rep, true);
             r.rep.count("origin:interface-hierarchy-stream");
+            if i < 2 {
+                r.rep.sample(json!({"stream": "interface-hierarchy", "doc": c.doc, "schema_files": c.sdl}));
+            }
             if nontrivial(&c.doc) {
                 r.rep.nontrivial(&format!("{}\n{}", c.sdl.join("\n"), c.doc));
             }
